@@ -114,8 +114,17 @@ def run_nodes(jobs_by_host, workers):
         if not jobs:
             continue
         nsh = min(per_host, max(1, len(jobs) // 4))
-        for s in range(nsh):
-            part = jobs[s::nsh]
+        parts = [[] for _ in range(nsh)]
+        solo = [j for j in jobs if j.get("group") is None]
+        for k, j in enumerate(solo):
+            parts[k % nsh].append(j)
+        grouped = {}
+        for j in jobs:
+            if j.get("group") is not None:
+                grouped.setdefault(j["group"], []).append(j)
+        for k, g in enumerate(sorted(grouped)):
+            parts[k % nsh].extend(grouped[g])
+        for s, part in enumerate(parts):
             if part:
                 tasks.append((host, s, part))
     results = {}
@@ -138,7 +147,14 @@ def run_nodes(jobs_by_host, workers):
     merged = {}
     for tag in sorted(results):
         r = results[tag]
-        merged.setdefault(r["host"], {}).update(r["results"])
+        m = merged.setdefault(r["host"], {})
+        for fid, rows in r["results"].items():
+            m.setdefault(fid, []).extend(rows)
+    for tag in sorted(results):
+        r = results[tag]
+        m = merged.setdefault(r["host"], {})
+        for fid, rows in (r.get("shared") or {}).items():
+            m.setdefault(fid, []).extend(rows)
     return merged
 
 
@@ -163,6 +179,30 @@ def plan_jobs(master, tier):
                 arms.append("skip")
             jobs_by_host[host].append({"id": "f%d" % bi, "path": b.path, "name": b.name, "arms": arms,
                                        "formats": fmts, "deep": bool(small)})
+    # second pass, "long-lived replica": host-magic files are decoded again on their own host (native path) and on
+    # one seeded other host (portable path), several files per process, so that state kept by one path only
+    # (e.g. a cache keyed on native code objects) shows up as a cross-path divergence
+    rng = core.SeedStream(core.derive_seed(master, PROP, 0, "shared"))
+    hosts = [h for h, _ in W["hosts"]]
+    for host in hosts:
+        mine = [bi for bi, b in enumerate(W["bases"]) if b.magic_int == W["host_magic"][host] and
+                W["info"][bi].get("ok") and W["info"][bi]["max"] <= SMALL_MAX_CO and W["info"][bi]["total"] <= SMALL_TOTAL]
+        if not mine:
+            continue
+        # siblings (same program stored under another path / invalidation mode) next to each other
+        mine.sort(key=lambda bi: (W["bases"][bi].name.split(".")[0], W["bases"][bi].name))
+        other = rng.choice([h for h in hosts if h != host]) if len(hosts) > 1 else None
+        gsize = 6
+        for g0 in range(0, len(mine), gsize):
+            grp = mine[g0:g0 + gsize]
+            for bi in grp:
+                W.setdefault("shared_groups", {})[bi] = list(grp)
+            fm = sorted(set(["xasm", rng.choice(FORMATS)]))
+            for h2 in [host] + ([other] if other else []):
+                for bi in grp:
+                    b = W["bases"][bi]
+                    jobs_by_host[h2].append({"id": "f%d" % bi, "path": b.path, "name": b.name, "arms": ["default"],
+                                             "formats": fm, "deep": False, "group": "g%s-%d" % (host, g0)})
     return jobs_by_host
 
 
@@ -374,12 +414,19 @@ def detail_for(bi, divs, workers):
     fmts = sorted(c.split(":", 1)[1] for c in comps if c.startswith("text:"))
     deep = any(c in ("instructions", "labels", "linestarts", "exception_entries") for c in comps)
     jobs = {}
+    shared = any("@shared" in lab for d in divs for g in d["groups"] for lab in g)
+    grp = (W.get("shared_groups") or {}).get(bi) if shared else None
     for host, _ in W["hosts"]:
         arms = ["default"]
         if b.magic_int == W["host_magic"][host]:
             arms.append("skip")
         jobs[host] = [{"id": "f%d" % bi, "path": b.path, "name": b.name, "arms": arms, "formats": fmts,
                        "deep": deep, "detail": True}]
+        if grp:
+            for gbi in grp:
+                gb = W["bases"][gbi]
+                jobs[host].append({"id": "f%d" % gbi, "path": gb.path, "name": gb.name, "arms": ["default"],
+                                   "formats": fmts, "deep": False, "detail": True, "group": "detail"})
     res = run_nodes(jobs, workers)
     rows = {}
     for host in res:
@@ -556,6 +603,9 @@ def main(opts):
             "property": PROP, "master_seed": master, "signature": sig, "file": b.describe(), "name": b.name,
             "file_b64": core.b64(b.data), "groups": d["groups"], "difference": det,
             "files_in_class": len(group), "other_files": [W["bases"][x[0]].path for x in group[1:6]],
+            "shared_group": [{"name": W["bases"][g].name, "file_b64": core.b64(W["bases"][g].data)}
+                             for g in ((W.get("shared_groups") or {}).get(bi) or [])]
+            if any("@shared" in lab for gg in d["groups"] for lab in gg) else [],
             "minimisation": "smallest of %d files showing the class" % len(group)})
         replays.append(path)
         lines.append("VIOLATION property=%s replay=%s" % (PROP, path))
@@ -660,9 +710,18 @@ def replay(path):
     comp = r["signature"]["component"]
     fmts = [comp.split(":", 1)[1]] if comp.startswith("text:") else []
     jobs = {}
+    gfiles = []
+    for k, g in enumerate(r.get("shared_group") or []):
+        gp = os.path.join(W["rundir"], "replay-g%d-%s" % (k, g["name"]))
+        with open(gp, "wb") as f:
+            f.write(core.unb64(g["file_b64"]))
+        gfiles.append((gp, g["name"], core.sha256_hex(core.unb64(g["file_b64"])) == b.sha))
     for host, _ in W["hosts"]:
         arms = ["default"] + (["skip"] if b.magic_int == W["host_magic"][host] else [])
         jobs[host] = [{"id": "f0", "path": fpath, "name": b.name, "arms": arms, "formats": fmts, "deep": True}]
+        for k, (gp, gname, is_target) in enumerate(gfiles):
+            jobs[host].append({"id": "f0" if is_target else "g%d" % k, "path": gp, "name": gname, "arms": ["default"],
+                               "formats": fmts or ["xasm"], "deep": False, "group": "replay"})
     res = run_nodes(jobs, core.default_workers())
     per_host = dict((h, res[h]["f0"]) for h in res)
     divs, rows = compare_file(0, per_host)
